@@ -228,15 +228,23 @@ def run(ctx: Ctx):
     alist = e_["action_list"] if e_ else (looked_up[0] if looked_up else None)
     ctx.check(e_ is not None, "GRD-1", pol, rets[0] if rets else pol.node, "greedy action = argmax_a Q(s, a) over the state's action list", "",
               f"greedy action is `{role_text(name_free(pol, rets[0].value), {alist: 'action list'}) if rets else None}`")
-    srcs = [n for n, _ in SP.find("action_list = E_source", {"action_list": alist})] if alist else []
-    srcs = [n for n in srcs if "actions(" in ast.unparse(n.value)]
-    ok = bool(srcs) and all(f"{pm}.actions({ps})" in ast.unparse(s_.value) for s_ in srcs)
+    allsrc = [n for n, _ in SP.find("action_list = E_source", {"action_list": alist})] if alist else []
+    env_a = {"action_list": alist}
+    direct = [n for n in allsrc if SP.m(f"action_list = {pm}.actions({ps})", n, env_a) is not None]
+    copied = [n for n in allsrc if SP.m(f"action_list = list({pm}.actions({ps}))", n, env_a) is not None]      # temporaries are transparent
+    cached = [n for n in allsrc if isinstance(n.value, ast.Subscript)]
+    srcs = direct + copied
+    ok = bool(srcs) and len(direct) + len(copied) + len(cached) == len(allsrc)
     ctx.check(ok, "GRD-1", pol, srcs[0] if srcs else pol.node, "the action list is mdp.actions(s) (or a shuffled copy)", "", "action list is not derived from mdp.actions(s)")
     sh = [c for c in ast.walk(pol.node) if isinstance(c, ast.Call) and isinstance(c.func, ast.Attribute) and c.func.attr == "shuffle"]
     if sh:
         ok = alist is not None and SP.m("self.rng.shuffle(action_list)", sh[0], {"action_list": alist}) is not None
         ctx.check(ok, "GRD-1", pol, sh[0], "shuffle uses the planner's generator on a copy", "", "shuffle does not use self.rng")
-        cp = [s_ for s_ in srcs if ast.unparse(s_.value).startswith("list(")]
+        cp = [s_ for s_ in copied if any(s_ is x or sh[0] is x for x in ast.walk(pol.node))]
+        shuffled_block = [b for b in ast.walk(pol.node) if isinstance(b, (ast.If, ast.For, ast.While, ast.FunctionDef)) and any(sh[0] is getattr(y, "value", None) for f_ in ("body", "orelse") for y in getattr(b, f_, []) if isinstance(y, ast.Expr))]
+        # the definition that reaches the shuffle (same block, before it) must be the copy
+        reach = [s_ for s_ in allsrc if s_.lineno < sh[0].lineno and any(s_ in getattr(b, f_, []) and any(isinstance(y, ast.Expr) and y.value is sh[0] for y in getattr(b, f_, [])) for b in shuffled_block for f_ in ("body", "orelse"))]
+        cp = [s_ for s_ in (reach[-1:] if reach else []) if s_ in copied]
         ctx.check(bool(cp), "GRD-1", pol, sh[0], "the MDP's own action sequence is copied before shuffling", "", "the MDP's action sequence is shuffled in place")
     # ---------------- value-table default (BEL-7) and converged (BEL-5)
     lr = C.methods["lrtdp"]
